@@ -94,6 +94,9 @@ def generate(rng, repo_root, opts=None):
             scn["sched"] = world.draw_schedule(rng, fs, obj["pf"], n)
     elif kind == "const":
         scn["const_form"] = "simulate_arg" if (cls == "SinglePhaseReservoir" and rng.random() < 0.6) else "ctor_array"
+        if scn["const_form"] == "simulate_arg" and rng.random() < 0.5:
+            # the object given the schedule is configured with ANOTHER scalar: the schedule's value must win
+            scn["other_pf"] = world.draw_pf(rng, fs)
     elif kind == "rejectlen":
         scn["bad_len"] = rng.choice([0, max(0, n - 1), n + 1, 2 * n, 1, n + 7])
         if scn["bad_len"] == n:
@@ -315,6 +318,8 @@ def execute(ns, scn):
             return out
         ok1, _, e1 = _sim(out, r1, t.copy())
         if scn.get("const_form", "simulate_arg") == "simulate_arg":
+            if scn.get("other_pf") is not None:
+                r2.pressure_fracface = float(scn["other_pf"])   # same as constructing it with that scalar
             ok2, _, e2 = _sim(out, r2, t.copy(), np.full(n, float(o["pf"])))
         else:
             r2.pressure_fracface = np.full(n, float(o["pf"]))   # same as constructing with the array
@@ -532,7 +537,7 @@ def sample_repr(scn, res=None):
          "fluid": f'{scn["fluids"][0]["family"]}@p_i={scn["fluids"][0]["p_i"]}',
          "grid": f'{scn["grid"]["family"]} n={len(t)} t0={t[0]:.6g} t_end={t[-1]:.6g}',
          "pre_rejected": [p["how"] for p in scn.get("pre_rejected", [])]}
-    for k in ("shift", "bad_len", "completed_before", "reads", "modes", "grid_shift"):
+    for k in ("shift", "bad_len", "completed_before", "reads", "modes", "grid_shift", "const_form", "other_pf"):
         if k in scn:
             d[k] = scn[k]
     if res is not None:
